@@ -1,0 +1,22 @@
+//go:build verif
+
+// Contracts for the verif build tag (comment-only; see /verif/DESIGN.md §4).
+package consumer
+
+// ---------------------------------------------------------------------------
+// Kafka consumer side (C19): a length-delimited payload is unmarshalled from byte 4 on
+// ---------------------------------------------------------------------------
+
+//@ func (kc *KafkaConsumer) DecodeAndPrintMsg(msg) (err)
+//@   requires kc:   kc != nil && msg != nil && !isnil(kc.input.KafkaProtoSchema)
+//@   requires len:  kc.input.MsgDelimitWithLen ==> len(msg.Value) >= 4
+//@   ensures  once: $unmarshalN == old($unmarshalN) + 1
+//@   ensures  strip: kc.input.MsgDelimitWithLen ==> len($lastUnmarshal) == len(msg.Value) - 4 && (forall q in [0, len($lastUnmarshal)): $lastUnmarshal[q] == msg.Value[q + 4])
+//@   ensures  whole: !kc.input.MsgDelimitWithLen ==> $lastUnmarshal == msg.Value
+//@   modifies $lastUnmarshal, $unmarshalN
+
+//@ // what the producer frames (SendFlowMessage, clause framed) is what the consumer unmarshals (clause strip): the protobuf bytes themselves
+//@ lemma frame_inverse(p []byte, m []byte, u []byte):
+//@     len(p) == 4 + len(m) && be32(p, 0) == len(m) && (forall q in [4, 4 + len(m)): p[q] == m[q - 4])
+//@     && len(u) == len(p) - 4 && (forall q in [0, len(u)): u[q] == p[q + 4])
+//@     ==> len(u) == len(m) && be32(p, 0) == len(u) && (forall q in [0, len(m)): u[q] == m[q])
